@@ -6,7 +6,7 @@ from harness.c12 import EQB, REQ, NAMES, ms_term, tail
 
 LEAF_GARBAGE = "leaf-garbage"
 LEAF_PROTOCOL_ERRORS = ("BooleanUnslicer only accepts", "NoneUnslicer does not accept", "UnicodeUnslicer only accepts",
-                        "already received a string")
+                        "already received a string", "duplicate key", "unhashable key")
 
 
 def run(ctx):
@@ -173,7 +173,7 @@ def mutate_wire(S, ws, rng):
             return wput(ws, p, ["wo", "boolean", x[2] + x[2]]), LEAF_GARBAGE
         if x[0] == "wo" and x[1] == "unicode" and x[2]:
             return wput(ws, p, ["wo", "unicode", [["wi", "INT", 1, 1]]]), LEAF_GARBAGE
-        if x[0] == "wo" and x[1] in ("list", "tuple", "set", "immutable-set") and r < 0.5:
+        if p == () and x[0] == "wo" and x[1] in ("list", "tuple", "set", "immutable-set") and r < 0.5:
             return wput(ws, p, ["wo", {"list": "tuple", "tuple": "list", "set": "immutable-set", "immutable-set": "set"}[x[1]], x[2]]), "opentype-swapped"
     return ws, "none"
 
@@ -244,7 +244,7 @@ def run_call(ctx, S, E, tag, family, argspec, pos, kws):
         if out[0] != "ok":
             ctx.fail("oracle/invoked-but-failed", "the method ran but the caller got %r: %r" % (out, case), replay=case)
     elif not w.alive():
-        rec["outcome"] = "dead"
+        rec["outcome"] = "dead-dupkey" if any("duplicate key" in e for e in w.recv_errors) else "dead"
         classify_dead(ctx, w, family, case, "call")
     else:
         rec["outcome"] = "violation"
@@ -340,7 +340,7 @@ def run_answer(ctx, S, E, tag, family, cs, ws):
             ctx.fail("oracle/result-unchecked", "the callRemote callback received %r which violates the result constraint %r "
                      "(hand-built answer %s)" % (rec["value"], cs, str(ws)[:300]), replay=case)
     elif not w.alive():
-        rec["outcome"] = "dead"
+        rec["outcome"] = "dead-dupkey" if any("duplicate key" in e for e in w.recv_errors) else "dead"
         classify_dead(ctx, w, family, case, "answer")
     elif out[0] == "pending":
         rec["outcome"] = "pending"
@@ -395,6 +395,7 @@ def correspond(ctx, S, calls, answers):
     def nm(n):
         return NAMES.index(n) + 1 if n in NAMES else 26
     CODE = {"invoked": 1, "violation": 2, "dead": 3}
+    calls = [r for r in calls if r["outcome"] in CODE]          # duplicate dict keys (a protocol error) are not modelled
     for lo in range(0, len(calls), 200):
         chunk = calls[lo:lo + 200]
         rows = []
